@@ -151,11 +151,11 @@ def bounds(tier):
     }
     if tier == "quick":
         b["multisets"] = "k<=2 over 125 lattice points (8000), k=3 over 27-point sublattice (3654)"
-        b["periodic_multisets"] = "k<=2 over the 27-point sublattice (405) x 8 boxes"
+        b["periodic_multisets"] = "k=1 over the 27-point sublattice x 8 boxes, k=2 (378) x boxes o2.5, o4, t1, t2"
     else:
         b["multisets"] = "k<=3 over 125 lattice points (341375), k=4 over 27-point sublattice (27405)"
         b["periodic_multisets"] = ("k<=3 over the 27-point sublattice (4059) x 8 boxes, k=2 over 125 points (7875) x "
-                                   "boxes o3, o2, t1, t2")
+                                   "boxes o3, t1")
     return b
 
 
@@ -619,18 +619,19 @@ def program(cfg, coords, box, level):
     ops.append({"m": "cells", "q": qn, "rows": k, "r": ["cyc", [0, 3, 1, 2], 0]})
     if level != "tiny":
         ops.append({"m": "cells", "q": qn, "rows": k, "r": ["cyc", [2, 0, 1], 1], "mask": True, "qdt": "f32"})
-    # single (3,) queries: the first rows of the query set (4 far + 3 non-finite + lattice points)
-    nsingle = {"tiny": 8, "lite": 10, "mini": 10, "mid": 60, "full": 400}[level]
+    # single (3,) queries: one far point, one non-finite point and the first lattice points of the query set
+    nsingle = {"tiny": 5, "lite": 10, "mini": 10, "mid": 60, "full": 400}[level]
+    srows = [0, 4] + list(range(len(EXTRA_Q), len(EXTRA_Q) + nsingle - 2))
     if rich:
         for r in (0.0, 1.0, 2.5, 5.0):
-            ops.append({"m": "get", "q": qn, "rows": nsingle, "r": r, "single": True})
-            ops.append({"m": "get", "q": qn, "rows": nsingle, "r": r, "single": True, "mask": True})
-        ops.append({"m": "cells", "q": qn, "rows": nsingle, "r": 1, "single": True})
-        ops.append({"m": "cells", "q": qn, "rows": nsingle, "r": 2, "single": True, "mask": True})
+            ops.append({"m": "get", "q": qn, "rows": srows, "r": r, "single": True})
+            ops.append({"m": "get", "q": qn, "rows": srows, "r": r, "single": True, "mask": True})
+        ops.append({"m": "cells", "q": qn, "rows": srows, "r": 1, "single": True})
+        ops.append({"m": "cells", "q": qn, "rows": srows, "r": 2, "single": True, "mask": True})
     else:
-        ops.append({"m": "get", "q": qn, "rows": nsingle, "r": 0.5, "single": True})
-        ops.append({"m": "get", "q": qn, "rows": nsingle, "r": 2.0, "single": True, "mask": True})
-        ops.append({"m": "cells", "q": qn, "rows": nsingle, "r": 1, "single": True, "mask": level == "tiny"})
+        ops.append({"m": "get", "q": qn, "rows": srows, "r": 0.5, "single": True})
+        ops.append({"m": "get", "q": qn, "rows": srows, "r": 2.0, "single": True, "mask": True})
+        ops.append({"m": "cells", "q": qn, "rows": srows, "r": 1, "single": True, "mask": level == "tiny"})
     return ops
 
 
@@ -677,12 +678,12 @@ def shards(tier, seed):
     out = []
     allb = list(BOXES)
     if tier == "quick":
-        ms = [("ms", 1, 1, "lite"), ("ms", 2, 16, "mini"), ("ms27", 3, 8, "mini")]
-        pms = [("ms27", 1, 1, "mini", allb), ("ms27", 2, 4, "tiny", allb)]
+        ms = [("ms", 1, 1, "lite"), ("ms", 2, 16, "tiny"), ("ms27", 3, 8, "tiny")]
+        pms = [("ms27", 1, 1, "mini", allb), ("ms27", 2, 4, "tiny", ["o2.5", "o4", "t1", "t2"])]
     else:
         ms = [("ms", 1, 1, "mid"), ("ms", 2, 16, "lite"), ("ms", 3, 240, "tiny"), ("ms27", 4, 24, "tiny")]
         pms = [("ms27", 1, 1, "mini", allb), ("ms27", 2, 4, "mini", allb), ("ms27", 3, 8, "tiny", allb),
-               ("ms", 2, 16, "tiny", ["o3", "o2", "t1", "t2"])]
+               ("ms", 2, 8, "tiny", ["o3", "t1"])]
     for fam, k, parts, level in ms:
         for p in range(parts):
             out.append({"kind": "ms", "fam": fam, "k": k, "part": p, "parts": parts, "off": off, "level": level})
